@@ -73,6 +73,10 @@ func (p c29Pipe) String() string {
 	return fmt.Sprintf("%d:b:%s:%s:%s:%s:%d", p.rows, se, bad, opt(p.stopAt), opt(p.pcancelAfter), p.cdelayUS)
 }
 
+func c29LineT(nw int, pipes []c29Pipe, seed uint64, maxDelayUS int, cancelAfterUS int) string {
+	return c29Line(nw, pipes, seed, maxDelayUS) + fmt.Sprintf(" t%d", cancelAfterUS)
+}
+
 func c29Line(nw int, pipes []c29Pipe, seed uint64, maxDelayUS int) string {
 	var sb strings.Builder
 	fmt.Fprintf(&sb, "json %d %d", nw, len(pipes))
@@ -157,6 +161,19 @@ func c29Gen(g *Gen, tier string, w *bufio.Writer) {
 			md = 20 + g.Intn(400)
 		}
 		emit(c29Line(nws[g.Intn(3)], []c29Pipe{p}, g.U64()%100000+1, md))
+	}
+	// 3b. cancellation of the parent context from outside, at a random moment (while the consumer waits in its select,
+	//     while the reader waits for a token, …)
+	nt := 12
+	if tier == "thorough" {
+		nt = 150
+	}
+	for i := 0; i < nt; i++ {
+		p := plain(pickRows())
+		if g.Intn(2) == 0 {
+			p.cdelayUS = 1 + g.Intn(5)
+		}
+		emit(c29LineT(nws[g.Intn(3)], []c29Pipe{p}, g.U64()%100000+1, g.Intn(300), 30+g.Intn(4000)))
 	}
 	// 4. several pipes sharing the pool
 	m := 20
@@ -255,6 +272,19 @@ func c29Gen(g *Gen, tier string, w *bufio.Writer) {
 		rows := []int{40, 200, 1000, 3000}[g.Intn(4)]
 		emit(fmt.Sprintf("race %d %d %d d%d x%d", gmps[g.Intn(4)], qid, rows, g.U64()%100000+1, c29RaceQueries[qid].exit))
 	}
+	// 7. whole-engine traces: the same queries through the plain verif binary with the pipeline hooks logging to a file
+	nc := len(c29RaceQueries)
+	if tier == "thorough" {
+		nc = 130
+	}
+	for i := 0; i < nc; i++ {
+		qid := i % len(c29RaceQueries)
+		if i >= len(c29RaceQueries) {
+			qid = g.Intn(len(c29RaceQueries))
+		}
+		rows := []int{1, 40, 200, 1000, 3000}[g.Intn(5)]
+		emit(fmt.Sprintf("cli %d %d %d d%d x%d", gmps[g.Intn(4)], qid, rows, g.U64()%100000+1, c29RaceQueries[qid].exit))
+	}
 }
 
 // ---------------------------------------------------------------- parent: persistent children per GOMAXPROCS
@@ -284,8 +314,8 @@ func c29DriveAll(sc *bufio.Scanner, w *bufio.Writer) {
 	queues := map[string][]int{}
 	for i, toks := range lines {
 		key := "-"
-		if len(toks) >= 3 && toks[0] == "race" {
-			key = "race/" + strconv.Itoa(i%4)
+		if len(toks) >= 3 && (toks[0] == "race" || toks[0] == "cli") {
+			key = toks[0] + "/" + strconv.Itoa(i%4)
 		} else if len(toks) >= 3 && (toks[0] == "json" || toks[0] == "join") {
 			if len(queues[toks[1]+"/0"]) > len(queues[toks[1]+"/1"]) {
 				key = toks[1] + "/1"
@@ -349,6 +379,9 @@ func c29Drive(toks []string) string {
 	if len(toks) >= 3 && toks[0] == "race" {
 		return c29RunRace(toks)
 	}
+	if len(toks) >= 3 && toks[0] == "cli" {
+		return c29RunCLI(toks)
+	}
 	if len(toks) < 3 || (toks[0] != "json" && toks[0] != "join") {
 		return "bad-op"
 	}
@@ -371,6 +404,9 @@ func c29Drive(toks []string) string {
 func c29Dispatch(pch **c29Child, toks []string) string {
 	if len(toks) >= 3 && toks[0] == "race" {
 		return c29RunRace(toks)
+	}
+	if len(toks) >= 3 && toks[0] == "cli" {
+		return c29RunCLI(toks)
 	}
 	if len(toks) < 3 || (toks[0] != "json" && toks[0] != "join") {
 		return "bad-op"
@@ -562,6 +598,10 @@ func c29RunOp(toks []string) (result string) {
 	}
 	seed, _ := strconv.ParseUint(strings.TrimPrefix(toks[3+np], "d"), 10, 64)
 	maxDelay, _ := strconv.Atoi(strings.TrimPrefix(toks[3+np+1], "m"))
+	cancelAllAfterUS := 0 // t<µs>: the parent contexts of all pipes are cancelled from outside after that time
+	if len(toks) > 3+np+2 && strings.HasPrefix(toks[3+np+2], "t") {
+		cancelAllAfterUS, _ = strconv.Atoi(strings.TrimPrefix(toks[3+np+2], "t"))
+	}
 
 	dir := scratchDir("c29")
 	defer os.RemoveAll(dir)
@@ -615,6 +655,23 @@ func c29RunOp(toks []string) (result string) {
 			p := pipes[i]
 			ctx, cancel := context.WithCancel(baseCtx)
 			defer cancel()
+			if cancelAllAfterUS > 0 {
+				tm := time.AfterFunc(time.Duration(cancelAllAfterUS)*time.Microsecond, func() {
+					log.mu.Lock()
+					known := false
+					for r, pi := range log.runToPipe {
+						if pi == i {
+							log.events = append(log.events, c29Event{kind: "pcancel", run: r})
+							known = true
+						}
+					}
+					log.mu.Unlock()
+					if known { // (before the run's `start` event there is nothing to attribute the cancellation to: skip it)
+						cancel()
+					}
+				})
+				defer tm.Stop()
+			}
 			produced := 0
 			stopErr := fmt.Errorf("c29 stop")
 			produce := func(pctx execution.ProduceContext, rec execution.Record) error {
